@@ -39,7 +39,12 @@ RECURSIVE QN(_)
 QN(n) == IF n = 1 THEN {QLeaf(k) : k \in QLeafKinds}
          ELSE {Typed(t, q) : t \in FTypes, q \in QN(n - 1)}
               \cup UNION {{Bin(op, a, b) : op \in {"and", "or"}, a \in QN(m), b \in QN(n - 1 - m)} : m \in 1..(n - 2)}
-Queries == UNION {QN(n) : n \in 1..MaxQSize}
+\* whatever MaxQSize is: every five-node tree of two binary operators over the plain leaves, i.e. an and/or directly
+\* inside an and/or of the same and of the other kind, left- and right-nested (a.or_(b).or_(c) is the left-nested one)
+NestLeaves == {QLeaf("all"), QLeaf("keyed"), QLeaf("tagged")}
+Nested == {Bin(o1, Bin(o2, a, b), c) : o1 \in {"and", "or"}, o2 \in {"and", "or"}, a \in NestLeaves, b \in NestLeaves, c \in NestLeaves}
+          \cup {Bin(o1, a, Bin(o2, b, c)) : o1 \in {"and", "or"}, o2 \in {"and", "or"}, a \in NestLeaves, b \in NestLeaves, c \in NestLeaves}
+Queries == UNION {QN(n) : n \in 1..MaxQSize} \cup Nested
 
 \* ---------------------------------------------------------------- expressions (one level of structure; the shapes
 \* of calls/lambdas come from ExprTree.tla)
